@@ -103,6 +103,7 @@ class Spec:
         self.ndelivered = 0
         self.ended = set()
         self.sleep_req = {}
+        self.failed_wait = {}     # actor -> op index of its last operation that ended with an exception raised by the kernel
         self.busy_dates = {}      # date -> actors that issued a request at that date
         for l in lines:
             if l.get("k") == "ret":
@@ -643,6 +644,9 @@ class Spec:
         elif o in ("wait_any", "test_any"):
             for h in op[1]:
                 self.refinish(self.handles.get(h))
+            if a in self.failed_wait:
+                # the observer of the failed simcall dangles until the next simcall; the constructor of the waitany/testany observer reads it
+                self.labels.add("waitany-after-failed-wait")
         elif o == "set_receiver":
             M = self.mbs[op[1]]
             unset = len(op) > 2 and op[2] is False
@@ -744,6 +748,10 @@ class Spec:
         o = op[0]
         exc = rec.get("exc")
         val = rec.get("r")
+        if exc in ("NetworkFailure", "Cancel", "HostFailure"):
+            self.failed_wait[a] = rec["i"]
+        elif a in self.failed_wait and o not in ("now", "put_init", "mq_peek", "test"):     # those may not perform any simcall
+            del self.failed_wait[a]       # any later simcall that returns normally resets the pointer
 
         def opts(k):
             return op[k] if len(op) > k and isinstance(op[k], dict) else {}
